@@ -270,6 +270,7 @@ func smallInline(fn *ssa.Function) bool {
 }
 
 func runC12(c *Ctx) {
+	defer checkClaimsWith(c, "C12.R10")
 	defer checkRegisteredClaimsWin(c, "C12.R9", "(*"+pkgJWT+".JWTClaims).ToMap", "scp", "scope", "aud", "sub", "iss", "exp")
 	defer checkGrantedBeforeMint(c, "C12.R8")
 	defer checkClientGetters(c, "C12.R7", clientGetter{"DefaultClient", "GetScopes", "Scopes", ""}, clientGetter{"DefaultClient", "GetAudience", "Audience", ""})
